@@ -21,9 +21,9 @@ func init() {
 		"C15": "LineString.IsClosed on 0..5 points; the mod-2 flag machine of the overlay input.",
 		"C16": "the leaf ForceCoordinatesType of Point and Sequence on all 16 type pairs (stored representation included); Sequence-returning methods type their result by the receiver; collection literals only in the type's own code, members forced when the type is a constant; Force2D/SnapToGrid wrappers.",
 		"C17": "evenly spaced fractions end at exactly 1; one cumulative length per segment; snapToGridFloat64 is decimal rounding and odd.",
-		"C18": "structureEq is a perfect-matching test for every element relation (n <= 3); geometriesEq decides by type and that type's comparator only; quantifier loops of the comparators.",
-		"C19": "no division by a vanishing norm in Forward; no one-sided closeness test.",
-		"C20": "counting loops start at the first element (12 reviewed exceptions); an empty member never ends a member loop; the last control point is read only from a non-empty sequence; IsEmpty/IsCW/IsCCW loops.",
+		"C18": "structureEq is a perfect-matching test for every element relation (n <= 3); geometriesEq decides by type and that type's comparator only; quantifier loops of the comparators; Coordinates values are not compared as whole structs.",
+		"C19": "no division by a vanishing norm in Forward; no one-sided closeness test; a projection written with + - * / only (equirectangular) has Reverse∘Forward = identity as a rational function.",
+		"C20": "counting loops start at the first element (12 reviewed exceptions); an empty member never ends a member loop; the last control point is read only from a non-empty sequence; IsEmpty/IsCW/IsCCW loops; an index containing `count - k` is evaluated only where count >= k is established (9 reviewed functions); a variadic option list is forwarded to every delegate that takes one.",
 	}
 	for id, t := range more {
 		if e, ok := propExplanation[id]; ok {
